@@ -10,7 +10,7 @@ import random
 import numpy as np
 import pandas as pd
 
-from .common import Recorder, ints_from_model, mint
+from .common import Recorder, ints_from_model, mint  # noqa: F401
 
 TOL = 1e-9
 
